@@ -493,6 +493,11 @@ def run_case(case):
             for et, ev in (("19970102T070000", datetime(1997, 1, 2, 7)), ("20240301T000000", datetime(2024, 3, 1))):
                 if ev > sv:
                     el_period_text(c, f"{st}/{et}", (sv, ev))
+        # decoding is a matter of the two halves: the end of the period (start + duration) need not be representable
+        el_period_text(c, "99991231T000000/P1D", (datetime(9999, 12, 31), timedelta(days=1)))
+        el_period_text(c, "99990101T120000/P53W", (datetime(9999, 1, 1, 12), timedelta(weeks=53)))
+        el_period_text(c, "20240229T083000/P3000000D", (datetime(2024, 2, 29, 8, 30), timedelta(days=3000000)))
+        el_period_text(c, "00010101T000000/PT1S", (datetime(1, 1, 1), timedelta(seconds=1)))
     elif kind == "ints":
         for i in int_grid():
             el_int(c, i)
